@@ -23,7 +23,7 @@ TECHNIQUE = "contract-based deductive verification of CovMonitor, PriorityQueue 
 D_MODULES = ["contracts.coverage_py", "contracts.priorityqueue_pyx", "contracts.readselect_pyx"]
 EXPLANATION = LEVEL_TEXT
 TRUSTED_BASE = ["z3/cvc5", "vcgen Python semantics (lists as arrays + length)"]
-ASSUMPTIONS = ["readselect.pyx is not under deductive contract (bounded only)"]
+ASSUMPTIONS = ["select_reads in cli/phase.py (per-sample cap, family merge) is covered by the bounded check only", "termination of the read selection loops is not proved"]
 
 
 def span_coverage(positions, reads, selected):
